@@ -147,6 +147,14 @@ Theorem C12_nested_broadcast : forall c s ev data to room skip ns k e inner,
 Proof. exact nested_broadcast_ok. Qed.
 Print Assumptions C12_nested_broadcast.
 
+(* whole histories: plain operations as in C12_run, re-entrant broadcasts whose nested operation
+   is a benign packet of some transport or the loss of that transport *)
+Theorem C12_nested_run : forall c ops,
+  has_actions c = false -> nbenign_ops c srv_init ops ->
+  nall_steps c srv_init ops (nobs c srv_init ops) = true.
+Proof. exact nested_run_ok. Qed.
+Print Assumptions C12_nested_run.
+
 Theorem C12_nested_example :
   snd (nstep3 x_cfg x_state x_nested) =
     ([Out x_e1 x_news], [Call 3 [PStr (sid_name 0); PStr (s2l "client disconnect")]], [Out x_e2 x_news]) /\
